@@ -99,6 +99,13 @@ def one_trace(rng, tid, prop):
                 y = x                                  # x - x: every term cancels
                 op = "sub" if d1 != "bool" else "add"
             rec.do("dtype", [x, y], keep=False, fn="arith", op=op)
+            if d1 != "bool" and rng.random() < 0.5:
+                # ** with a Python integer keeps the dtype of the base, for constants as for polynomials
+                base_ = x if rng.random() < 0.5 else rec.new(build_poly({
+                    "shape": list(base), "names": [0], "rows": [[0]],
+                    "coefs": [[rng.choice(VALUES[kind_of(d1)]) for _ in range(int(numpy.prod(base, dtype=int)))]], "dtype": d1}))
+                e = rec.new(rng.randint(0, 3))
+                rec.do("dtype", [base_, e], keep=False, fn="arith", op="pow")
         else:
             # shape functions and indexing keep the dtype (C09's dtype clause, on every dtype)
             x = rec.new(poly_of(rng, d1, rng.choice([(2,), (2, 2), (1, 2)])))
